@@ -22,8 +22,72 @@ from .core import REPO, AnalysisError, Report, Repo, finding_key, load_known
 from .mutants import MUTANTS
 
 
+def _seeded_variants(prop):
+    """Independently produced breaking changes stored under /verif/seeded."""
+    import json
+    from .core import VERIF
+    out = []
+    root = os.path.join(VERIF, "seeded")
+    if not os.path.isdir(root):
+        return out
+    for d in sorted(os.listdir(root)):
+        if not d.startswith(prop + "-"):
+            continue
+        patch = os.path.join(root, d, "patch.diff")
+        meta = os.path.join(root, d, "meta.json")
+        if not os.path.exists(patch):
+            continue
+        expect = "fire"
+        try:
+            with open(meta) as f:
+                mj = json.load(f)
+            if mj.get("outside_decided_clauses"):
+                expect = "undecided"
+        except Exception:
+            pass
+        out.append(dict(id="seeded:" + d, patchfile=patch, expect=expect))
+    return out
+
+
+def _run_patchfile(prop, m):
+    import subprocess
+    tmp = tempfile.mkdtemp(prefix="chamlint-")
+    try:
+        shutil.copytree(os.path.join(REPO, "src"), os.path.join(tmp, "src"),
+                        ignore=shutil.ignore_patterns(
+                            "tests", "__pycache__", "*.pyc"))
+        r = subprocess.run(["git", "apply", "--unsafe-paths", "--directory",
+                            tmp, m["patchfile"]], capture_output=True,
+                           text=True, cwd=tmp)
+        if r.returncode != 0:
+            return m["id"], "skipped", "patch does not apply"
+        from . import lib
+        lib._CACHE.clear()
+        mod = importlib.import_module("chamlint.rules.%s" % prop.lower())
+        rep = Report(prop, "selftest")
+        try:
+            mod.run(Repo(tmp), rep, "quick")
+        except AnalysisError as exc:
+            return m["id"], "analysis-error", str(exc)[:200]
+        except Exception as exc:  # noqa
+            return m["id"], "analysis-error", "%s: %s" % (
+                type(exc).__name__, str(exc)[:200])
+        known = load_known()
+        viol = [o for o in rep.obligations if o["status"] == "VIOLATED"
+                and finding_key(prop, o) not in known]
+        if viol:
+            return m["id"], "fired", ",".join(sorted(
+                {o["rule"] for o in viol})) + ": " + \
+                viol[0]["obligation"][:120]
+        return m["id"], "silent", ""
+    finally:
+        shutil.rmtree(tmp, ignore_errors=True)
+
+
 def _run_one(args):
     prop, m = args
+    if "patchfile" in m:
+        return _run_patchfile(prop, m)
     src_root = os.path.join(REPO, "src", "chameleon")
     path = os.path.join(src_root, m["file"])
     try:
@@ -70,7 +134,7 @@ def _run_one(args):
 
 
 def run(prop, rep, jobs=16):
-    muts = MUTANTS.get(prop, [])
+    muts = list(MUTANTS.get(prop, [])) + _seeded_variants(prop)
     if not muts:
         rep.selftest = dict(mutants=0, note="no seeded variants registered")
         return
@@ -87,6 +151,10 @@ def run(prop, rep, jobs=16):
                                        info=info))
         if status == "skipped" or status == "broken-mutant":
             summary["skipped"].append(mid)
+            continue
+        if kind == "undecided":
+            summary.setdefault("undecided_seeded", []).append(
+                dict(id=mid, status=status))
             continue
         if kind == "fire":
             summary["mutants"] += 1
